@@ -210,8 +210,10 @@ def _hist(kind, sizes, rng):
 HKINDS = ['calls', 'stream', 'mixed', 'w+a', 'a', 'w+a+a', 'a-stream']
 
 
-def _mk(fmt, rows, hist, gz=False, variant='', alpha='ascii', width=80, wbt=False):
-    return dict(fmt=fmt, rows=rows, hist=hist, gz=gz, variant=variant, alpha=alpha, width=width, wbt=wbt)
+def _mk(fmt, rows, hist, gz=False, variant='', alpha='ascii', width=80, wbt=False, dtypes=None):
+    """dtypes: {str(column index): numpy dtype name} for int / float columns held in a non-default dtype"""
+    return dict(fmt=fmt, rows=rows, hist=hist, gz=gz, variant=variant, alpha=alpha, width=width, wbt=wbt,
+                dtypes=dict(dtypes or {}))
 
 
 def _with_zeros(sizes, rng, p=0.3):
@@ -382,6 +384,76 @@ def generate(tier, seed):
                 r[1] = r[1] or 'ACGT'
         sizes = rng.choice(compositions(n))
         cases.append(_mk(fmt, rows, _hist(HKINDS[i % len(HKINDS)], sizes, rng), gz=(i % 3 == 0), alpha=alpha, wbt=(i % 2 == 0)))
+    # (9) int / float columns held in every dtype the table classes keep: values at both limits of the dtype, 0, -1/1.
+    #     The written text is the decimal spelling of the mathematical value whatever the dtype.
+    #     (uint64 values are kept within the int64 range the reader returns; a VCF POS column stays below its dtype's
+    #     maximum because the file holds POS+1.)
+    import numpy as np
+    INT_DT = ['int8', 'int16', 'int32', 'int64', 'uint8', 'uint16', 'uint32', 'uint64']
+
+    def ipool(dt, cap_max=False):
+        ii = np.iinfo(dt)
+        hi = min(int(ii.max), I64MAX) - (1 if cap_max else 0)
+        lo = int(ii.min)
+        pool = [lo, hi, 0, (-1 if lo < 0 else 1), lo + 1 if lo < 0 else 2, hi - 1]
+        return lo, hi, pool
+
+    def ival(dt, cap_max=False):
+        lo, hi, pool = ipool(dt, cap_max)
+        return rng.choice(pool) if rng.random() < 0.7 else rng.randint(max(lo, -10 ** 6), min(hi, 10 ** 6))
+
+    def f32(v):
+        return float(np.float32(v))
+
+    k9 = 0
+    for dt in INT_DT:
+        lo, hi, pool = ipool(dt)
+        for n in ((1, 2, 4) if not thorough else (1, 2, 3, 4, 6)):
+            for rep_ in range(2 if not thorough else 6):
+                k9 += 1
+                # bed3: both coordinate columns in that dtype, the limits always present
+                rows = [[g.ident(), ival(dt), ival(dt)] for _ in range(n)]
+                rows[0][1] = lo
+                rows[-1][2] = hi
+                if n > 1:
+                    rows[1][1] = hi
+                    rows[0][2] = lo
+                sizes = rng.choice(compositions(n))
+                cases.append(_mk('bed3', rows, _hist(HKINDS[k9 % len(HKINDS)], _with_zeros(sizes, rng, 0.1), rng), gz=(k9 % 3 == 0),
+                                 dtypes={'1': dt, '2': dt}))
+        # other tables: one int column in that dtype (Bed6 score, NarrowPeak summit, SAM flag / position / mapq, VCF POS)
+        for fmt, col, cap in (('bed6', 4, False), ('narrowpeak', 9, False), ('sam', 3, False), ('sam', 4, False), ('vcf', 1, True)):
+            if fmt == 'vcf' and np.iinfo(dt).min < 0:
+                pass
+            k9 += 1
+            n = rng.choice([1, 2, 3])
+            rows = [g.row(fmt) for _ in range(n)]
+            lo2, hi2, pool2 = ipool(dt, cap)
+            vals = [lo2, hi2, 0][:n] if rng.random() < 0.5 else [rng.choice(pool2) for _ in range(n)]
+            if fmt == 'vcf':
+                vals = [max(v, 0) for v in vals]
+            for r, v in zip(rows, vals):
+                r[col] = v
+            dts = {str(col): dt}
+            if fmt == 'narrowpeak' and k9 % 2 == 0:                   # float32 score columns next to it
+                for j in (6, 7, 8):
+                    dts[str(j)] = 'float32'
+                    for r in rows:
+                        r[j] = f32(r[j])
+            cases.append(_mk(fmt, rows, _hist(HKINDS[k9 % len(HKINDS)], rng.choice(compositions(n)), rng), gz=(k9 % 4 == 0),
+                             variant=('str' if fmt == 'vcf' else ''), dtypes=dts))
+    # float32 value columns (BedGraph, NarrowPeak): the text is the float32 spelling, the signed zeros included
+    for i in range(16 if not thorough else 120):
+        fmt = ('bdg', 'narrowpeak')[i % 2]
+        n = rng.choice([1, 2, 3, 4])
+        rows = [g.row(fmt) for _ in range(n)]
+        dts = {}
+        for j, kk in enumerate(KINDS[fmt]):
+            if kk == 'F':
+                dts[str(j)] = 'float32'
+                for r in rows:
+                    r[j] = f32(rng.choice([r[j], 0.1, -0.0, 0.0, 1e-05, 16777217.0, 3.4e+38, 1.5, -2.25e-07]))
+        cases.append(_mk(fmt, rows, _hist(HKINDS[i % len(HKINDS)], rng.choice(compositions(n)), rng), gz=(i % 3 == 0), dtypes=dts))
     # (5) exhaustive small scope (thorough): bed3 / bed6, n <= 3, field alphabet of 4 symbols, width <= 3, all compositions
     if thorough:
         sym = ['', 'a', 'bc', 'def']
@@ -464,6 +536,10 @@ def observe(case):
             else:
                 tups = [tuple(r) for r in rs]
             t = cls.from_entry_tuples(tups)
+            for j, dt in sorted(case.get('dtypes', {}).items()):      # columns held in a non-default dtype
+                name = dataclasses.fields(cls)[int(j)].name
+                t = dataclasses.replace(t, **{name: np.array([r[int(j)] for r in rs], dtype=dt)})
+                assert getattr(t, name).dtype == np.dtype(dt), ('the table did not keep the dtype', name, dt)
             if fmt in ('fasta', 'fastq') and case['alpha'] != 'ascii':
                 enc = {'dna': bnp.DNAEncoding, 'acgtn': bnp.encodings.alphabet_encoding.ACGTnEncoding,
                        'rna': bnp.encodings.alphabet_encoding.RNAENcoding,
@@ -626,7 +702,15 @@ def _texts(v):
 
 
 # ----------------------------------------------------------------------------- Coq emitter
-def _fld(k, v, read=False):
+def _float_text(v, dt=None):
+    """the opaque printer: str() of the element as the column array holds it"""
+    if dt == 'float32':
+        import numpy as np
+        return str(np.float32(v))
+    return str(float(v))
+
+
+def _fld(k, v, read=False, dt=None):
     if k in 'DSR':
         return 'FS %s' % (hx(bytes.fromhex(v)) if read else hx(v.encode('latin1')))
     if k == 'I':
@@ -638,13 +722,15 @@ def _fld(k, v, read=False):
     if k == 'F':
         if read:
             return 'FF (@nil Z) %s %s' % (cz(v[0]), cz(v[1]))
-        n, dd = float(v).as_integer_ratio()
-        return 'FF %s %s %s' % (hx(str(float(v)).encode()), cz(n), cz(dd))
+        txt = _float_text(v, dt)
+        n, dd = float(txt).as_integer_ratio()          # the value as printed (equal to v for float64 columns)
+        return 'FF %s %s %s' % (hx(txt.encode()), cz(n), cz(dd))
     raise ValueError(k)
 
 
-def _row(kinds, r, read=False):
-    return clist([_fld(k, v, read) for k, v in zip(kinds, r)], 'fld')
+def _row(kinds, r, read=False, dts=None):
+    dts = dts or {}
+    return clist([_fld(k, v, read, dts.get(str(j))) for j, (k, v) in enumerate(zip(kinds, r))], 'fld')
 
 
 def _fmt_term(case):
@@ -678,7 +764,7 @@ def to_coq(case, o):
         calls = []
         for c, chunks in zip(s['calls'], cs):
             calls.append('{| c_stream := %s; c_chunks := %s |}' % (
-                cbool(c['stream'] and not c.get('concat')), clist([clist([_row(kinds, r) for r in ch], 'row') for ch in chunks], '(list row)')))
+                cbool(c['stream'] and not c.get('concat')), clist([clist([_row(kinds, r, False, case.get('dtypes')) for r in ch], 'row') for ch in chunks], '(list row)')))
         sess.append('{| s_append := %s; s_calls := %s |}' % (cbool(s['append']), clist(calls, 'call')))
     read = clist([_row(kinds, r, True) for r in o['read']], 'row') if o['read_ok'] else '(@nil row)'
     return ('{| k_fmt := %s; k_schema := %s; k_header := %s; k_gz := %s; k_hist := %s; k_err := %s; k_written := %s; '
@@ -743,7 +829,7 @@ def explain(case, o):
 
 def distribution(cases, obs):
     d = dict(fmt={}, variant={}, rows={}, pieces={}, gz=0, append_sessions=0, stream_calls=0, empty_pieces=0, edge_ints=0,
-             errors={}, read_failures=0, fasta_widths={}, alphabets={}, sam_old_spelling_reads=0, reread_tables=0, concat_calls=0, signed_zero_columns=0)
+             errors={}, read_failures=0, fasta_widths={}, alphabets={}, sam_old_spelling_reads=0, reread_tables=0, concat_calls=0, signed_zero_columns=0, column_dtypes={})
     for c, o in zip(cases, obs):
         def inc(m, k):
             m[str(k)] = m.get(str(k), 0) + 1
@@ -767,6 +853,8 @@ def distribution(cases, obs):
             d['read_failures'] += 1
         if isinstance(o, dict) and 'alt' in o:
             d['sam_old_spelling_reads'] += 1
+        for dt_ in set(c.get('dtypes', {}).values()):
+            inc(d['column_dtypes'], dt_)
         d['reread_tables'] += c['variant'] == 'reread'
         d['concat_calls'] += sum(1 for s_ in c['hist'] for cc in s_['calls'] if cc.get('concat'))
         for j, kk in enumerate(KINDS[c['fmt']]):
@@ -801,7 +889,7 @@ def _int_text(n, pinned):
     return ('-' if n < 0 else '') + t
 
 
-def _cell_text(k, v, pinned):
+def _cell_text(k, v, pinned, dt=None):
     if k in 'DSR':
         return v
     if k == 'I':
@@ -810,7 +898,7 @@ def _cell_text(k, v, pinned):
         return ','.join(_int_text(x, pinned) for x in v)
     if k == 'Q':
         return ''.join(chr(q + 33) for q in v)
-    return str(float(v))
+    return _float_text(v, dt)
 
 
 def _ref_chunk(case, rows, T):
@@ -831,7 +919,8 @@ def _ref_chunk(case, rows, T):
         return 2, ''
     out = ''
     for r in rows:
-        cells = [_cell_text(k, (v + 1 if (fmt == 'vcf' and j == 1) else v), pinned) for j, (k, v) in enumerate(zip(kinds, r))]
+        cells = [_cell_text(k, (v + 1 if (fmt == 'vcf' and j == 1) else v), pinned, case.get('dtypes', {}).get(str(j)))
+                 for j, (k, v) in enumerate(zip(kinds, r))]
         if fmt == 'sam' and cells[-1] == '':
             cells = cells[:-1]                  # SAM: no TAB before absent optional tags
         out += '\t'.join(cells) + '\n'
@@ -889,6 +978,8 @@ def _ref_run(case, T):
                     e.append(int(_int_text(v, pinned)))
                 elif k == 'L':
                     e.append([int(_int_text(x, pinned)) for x in v])
+                elif k == 'F':
+                    e.append(float(_float_text(v, case.get('dtypes', {}).get(str(len(e))))))
                 else:
                     e.append(v)
             exp_rows.append(e)
